@@ -22,7 +22,7 @@ def describe(tier):
                 "assignments; plus for every assignment with UNKNOWN whose outcome is definite all 2^u refinements. Oracle (implementation vs "
                 "itself): the transformed expression raises nothing and has the same state / (fulfilled) as the base; refinements keep the "
                 "definite outcome; the hint transformations (the added hint carrying an EMPTY text) also through the library's shipped "
-                "evaluators for bases with <= 2 leaves; for bases with 4 leaves and distinct keys (quick tier) the refinement relation only. In addition the transformed expressions mix operator spellings (letter vs symbol), so that 'redundant "
+                "evaluators for bases with <= 2 leaves; bases with <= 2 leaves also with a hints provider whose get_hint_text is a plain function reading context-local data; for bases with 4 leaves and distinct keys (quick tier) the refinement relation only. In addition the transformed expressions mix operator spellings (letter vs symbol), so that 'redundant "
                 "brackets' is meant with respect to the documented precedence. Non-trivial = (transformed expression, assignment) pairs "
                 "with >= 2 leaves in the base.",
         "bounds": {"sizes": BOUNDS[tier]},
@@ -41,6 +41,10 @@ def plan(tier, seed):
     for mode in ("hardcoded", "cer", "methods", "cer-shared", "jsonfile"):
         for n in (1, 2) if tier == "quick" else (1, 2, 3):
             items.append({"fam": "modes", "mode": mode, "n": n, "seed": seed})
+    # the same transformations with a hints provider whose get_hint_text is a PLAIN function reading context-local data
+    # (HintsProvider.get_hints has a separate code path for it)
+    for n in (1, 2):
+        items.append({"fam": "synchints", "n": n, "seed": seed})
     for n, lab in BOUNDS[tier]:
         parts = {1: 1, 2: 4, 3: 48, 4: 768}[n]
         for p in range(parts):
@@ -210,6 +214,27 @@ def run_item(item):
     X.init()
     r = Result()
     pools = X.pools(item["seed"])
+    if item.get("fam") == "synchints":
+        I = X.init()
+        I.setup(sync_hints=True)
+        try:
+            for ast in A.asts(item["n"], "all", pools={k: [v[0]] + v[2:] for k, v in pools.items()}):
+                if not A.is_valid(ast):
+                    continue
+                vs, pairs = check_base(ast, item["seed"], names=["hint-left", "hint-right", "swap"])
+                r.evaluations += pairs
+                r.states += pairs
+                r.transitions += 2 * pairs
+                r.traces += 1
+                r.nontrivial += pairs
+                r.stat("bases_with_sync_hints_provider")
+                for v in vs:
+                    v["kind"] += "/sync-hints-provider"
+                    v["case"]["sync_hints"] = True
+                    r.violation(v["kind"], v["case"], v["expected"], v["observed"], v["msg"])
+        finally:
+            I.setup()
+        return r
     if item.get("fam") == "modes":
         from mc import impl_modes as M
 
@@ -263,4 +288,14 @@ def replay(case):
             return [v for v in check_base_mode(ast, case["seed"], case["mode"])[0] if v["case"]["t"] == case["t"]]
         finally:
             M.restore()
+    if case.get("sync_hints"):
+        I = X.init()
+        I.setup(sync_hints=True)
+        try:
+            vs = check_base(ast, case["seed"], only=(case["t"][0], case["t"][1]))[0]
+            for v in vs:
+                v["kind"] += "/sync-hints-provider"
+            return vs
+        finally:
+            I.setup()
     return check_base(ast, case["seed"], only=(case["t"][0], case["t"][1]))[0]
